@@ -18,7 +18,7 @@ one_mutant() {
   rsync -a --exclude .git /repo/ "$D/"
   if ! (cd "$D" && patch -p1 -s --no-backup-if-mismatch < "/verif/$d/patch.diff" >/dev/null 2>&1); then echo "SELF-CHECK $id NOAPPLY (the mutant no longer applies to this tree)"; rm -rf "$D"; return; fi
   if ! (cd "$D" && go build ./... >/dev/null 2>&1); then echo "SELF-CHECK $id NOBUILD"; rm -rf "$D"; return; fi
-  /verif/bin/stackcheck -verif "$D" -repo "$D" -prop "$P" -evidence "$D/ev.json" >/dev/null 2>&1
+  /verif/bin/stackcheck -verif /verif -repo "$D" -prop "$P" -evidence "$D/ev.json" >/dev/null 2>&1
   if [ $? -eq 1 ]; then echo "SELF-CHECK $id detected"; else echo "SELF-CHECK $id MISSED"; fi
   rm -rf "$D"
 }
@@ -28,7 +28,7 @@ one_revert() {
   # a plain copy with the commit reverted by patch (no git worktree: several run in parallel)
   rsync -a --exclude .git /repo/ "$W/"
   if git -C /repo show "$c" | (cd "$W" && patch -R -p1 -s --no-backup-if-mismatch >/dev/null 2>&1) && (cd "$W" && go build ./... >/dev/null 2>&1); then
-    /verif/bin/stackcheck -verif "$W" -repo "$W" -prop "$P" -evidence "$W/ev.json" >/dev/null 2>&1
+    /verif/bin/stackcheck -verif /verif -repo "$W" -prop "$P" -evidence "$W/ev.json" >/dev/null 2>&1
     if [ $? -eq 1 ]; then echo "SELF-CHECK revert-$c detected"; else echo "SELF-CHECK revert-$c MISSED"; fi
   else
     echo "SELF-CHECK revert-$c CONFLICT (later fixes touch the same lines)"
